@@ -12,6 +12,8 @@ import Mathlib.Tactic.Linarith
 import Mathlib.Algebra.BigOperators.Group.List.Basic
 import Mathlib.Algebra.Order.Field.Basic
 import Mathlib.Data.Nat.Cast.Field
+import Mathlib.Algebra.Order.BigOperators.Group.List
+import Mathlib.Tactic.Positivity
 
 namespace MiciVerif.Adapters
 variable {K : Type} [Field K]
